@@ -74,7 +74,7 @@ class Check(RecordingCheck):
     # ------------------------------------------------------------------ oracle (b): end to end
     def oracle_e2e(self, work):
         n = 0
-        plan_names = [("two_args", 1), ("chain", 3)] if self.tier == "quick" else [(w, 1) for w in rl.WORKLOADS]
+        plan_names = [("two_args", 1), ("chain", 3)] if self.tier == "quick" else [(w, 1) for w in rl.MODELLED_WORKLOADS]
         for name, stride in plan_names:
             db = rl.fresh_db(str(work), "probe.db")
             _, _, log, s = rl.sched_run(name, rl.LEAF_V1[name], db)
